@@ -290,12 +290,10 @@ def commitNode (collapse : Int) : Nat → WN → CRes
       let s := saveNode H (.routing h (ofList (rs.map (fun r => r.node))) w d tc)
       let h' := s.1.hashField H
       let puts := rs.flatMap (fun r => r.puts) ++ [s.2]
-      if (lvl : Int) = collapse then
-        { node := .hashRef h' w, puts := puts, created := rs.flatMap (fun r => r.created),
-          superseded := rs.flatMap (fun r => r.superseded) }
-      else
-        { node := s.1, puts := puts, created := rs.flatMap (fun r => r.created) ++ [h'],
-          superseded := rs.flatMap (fun r => r.superseded) ++ (if h = h' then [] else [h]) }
+      -- a branch at the collapse level is replaced by its reference; it is recorded like any other saved node (fix e0c8e87)
+      { node := if (lvl : Int) = collapse then .hashRef h' w else s.1,
+        puts := puts, created := rs.flatMap (fun r => r.created) ++ [h'],
+        superseded := rs.flatMap (fun r => r.superseded) ++ (if h = h' then [] else [h]) }
   | _, n => { node := n }
 
 def eraseAll (l : List Bytes) (xs : List Bytes) : List Bytes := l.filter (fun k => !xs.contains k)
@@ -314,9 +312,10 @@ def commit (t : WT) (collapse : Int) : WT × List StoreOp :=
           created := rs.flatMap (fun r => r.created) ++ [s.1.hashField H],
           superseded := h :: rs.flatMap (fun r => r.superseded) }
       | n => commitNode H collapse 0 n
-    let td := t.tempDeleted ++ r.superseded.filter (fun h => h ≠ [])
-    let td := if r.created = [] ∨ td = [] then td else eraseAll td r.created
-    ({ t with root := r.node, created := r.created, tempDeleted := td,
+    let td := eraseAll (t.tempDeleted ++ r.superseded.filter (fun h => h ≠ [])) r.created
+    -- a hash that is already in storage also belongs to an earlier commit: not listed as created (fix b5c797f)
+    let created := if t.hasDb then r.created.filter (fun h => (t.store.get h).isNone) else r.created
+    ({ t with root := r.node, created := created, tempDeleted := td,
               deleted := eraseAll t.deleted (r.created.map pad32) },
      r.puts.map (fun p => StoreOp.put p.1 p.2))
 
@@ -341,7 +340,8 @@ def rollbackTrie (t : WT) (node : WN) : WT × List StoreOp :=
   if !toEmpty && node.hashField H = t.root.hashField H then (t, [])
   else
     let ops := t.created.map StoreOp.del
-    ({ t with root := if toEmpty then .empty else node, store := t.store.apply ops, created := [], deleted := [] }, ops)
+    ({ t with root := if toEmpty then .empty else node, store := t.store.apply ops, created := [], tempDeleted := [],
+              deleted := [] }, ops)
 
 end Ops
 end Verif.Wmpt
